@@ -21,11 +21,13 @@ PROP = dict(
     shard=13,
     rule="a fixed corpus (the minimal inputs of every defect seen so far) followed by grammar-generated feature files of "
          "the subset (language systems, glyph classes and ranges, named and anonymous lookups, lookupflag incl. "
-         "UseMarkFilteringSet with GDEF classes, script/language, single / multiple / alternate / ligature / chaining "
+         "UseMarkFilteringSet and MarkAttachmentType with GDEF classes, script/language, single / multiple / alternate / ligature / chaining "
          "contextual substitution with inline and named nested lookups, single and pair positioning): small programs "
          "over a focus alphabet so that rules interact (chains across lookups, overlapping classes, ligatures sharing "
          "prefixes, promotion of single into multiple/ligature lookups, class pairs forcing subtable breaks, marks between "
-         "components, nested lookups changing the length); low-rate streams of conflicting rules, invalid files and known "
+         "components, nested lookups changing the length; runs of one rule type separated only by a lookupflag statement whose "
+         "state differs only in the filtering set / attachment class, or not at all; every mark mentioned by a flag class is in "
+         "the alphabet of the checked strings); low-rate streams of conflicting rules, invalid files and known "
          "crashers; plus a glyph-range stream. Each accepted file is compiled by fea_rs::Compiler, the real GSUB/GPOS/GDEF "
          "are decoded by a hand-written parser, and the property predicate (apply_ot on the real tables = interp_fea of the "
          "source) is evaluated on ALL glyph strings up to length 3-4 over the focus alphabet plus ~30 random longer ones, for "
@@ -59,7 +61,8 @@ PROP = dict(
                  "contextual rule, three inline-rule repairs) which the harness probes on fixed inputs on every run and prints "
                  "into every term, so the same check runs on the repaired and on the unrepaired tree and reports the same keys",
                  "script/language fallback of shapers (DFLT, default LangSys for unknown languages), required features, "
-                 "HarfBuzz's 64-level nesting and context-length limits, RightToLeft, MarkAttachmentType, subtable breaks, "
+                 "HarfBuzz's 64-level nesting and context-length limits, RightToLeft, overlapping MarkAttachmentType classes (GDEF gives a "
+                 "mark one class; the generator uses disjoint ones), subtable breaks, "
                  "second value records of pairs, device/variation tables, GPOS contextual and mark attachment are outside the model",
                  "write-fonts serialisation (offset packing, extension promotion, coverage/classdef formats) is covered only by "
                  "decoding the real bytes on the explored inputs"],
